@@ -499,7 +499,7 @@ func doS(ws []string, withList bool) string {
 	return doCase(mk, false, true)
 }
 
-func doJ(h string, fresh bool) string {
+func doJ(h string, fresh bool, forceMJ bool) string {
 	pooling = !fresh
 	defer func() { pooling = false }()
 	units, ok := unhex(h)
@@ -527,7 +527,7 @@ func doJ(h string, fresh bool) string {
 	for _, u := range units {
 		sum += int(u)
 	}
-	return doCase(mk, true, sum%2 == 0)
+	return doCase(mk, true, forceMJ || sum%2 == 0)
 }
 
 // JSON.parse(text, reviver): mk() returns [text, reviver]; native vs InternalizeJSONProperty oracle, result dump + LOG
@@ -660,7 +660,13 @@ func main() {
 			if len(ws) != 2 {
 				return "bad"
 			}
-			return doJ(ws[1], false)
+			return doJ(ws[1], false, false)
+		case "JM", "JFM":
+			// M = always compare Object.MarshalJSON with JSON.stringify(value) as well
+			if len(ws) != 2 {
+				return "bad"
+			}
+			return doJ(ws[1], ws[0] == "JFM", true)
 		case "V", "VF":
 			if len(ws) != 2 {
 				return "bad"
@@ -675,7 +681,7 @@ func main() {
 			if len(ws) != 2 {
 				return "bad"
 			}
-			return doJ(ws[1], true)
+			return doJ(ws[1], true, false)
 		case "Q":
 			if len(ws) == 1 {
 				return doQ("")
